@@ -11,3 +11,6 @@ import TddaVerif.Model.CheckStrings
 import TddaVerif.Drv.C04
 import TddaVerif.Model.RefTestCase
 import TddaVerif.Drv.C19
+import TddaVerif.Model.Regen
+import TddaVerif.Model.Constraints
+import TddaVerif.Drv.Cx
